@@ -114,6 +114,21 @@ def run_case(ctx, case):
                 r = mh.haar(v, preserve_energy=False, inline=True)
                 if not np.array_equal(np.asarray(r, np.float64), want) or not np.array_equal(np.asarray(v, np.float64), want):
                     return Result(False, True, {"why": "haar(inline=True) on a %s view != model (or the view was not transformed)" % case["layout"]})
+                # ... and back: the inverse transform in place on a view of the coefficients, with the memory around the view
+                # (the rest of the parent buffer) left alone
+                wv = apply_layout(np.asarray(want, dtype=dt), case["layout"], fill=1)
+                parent = wv.base if isinstance(wv.base, np.ndarray) else None
+                outside = (float(parent.astype(np.float64).sum()) - float(wv.astype(np.float64).sum())) if parent is not None else None
+                r = mh.ihaar(wv, preserve_energy=False, inline=True)
+                even = [s - s % 2 for s in a0.shape]
+                ref = a0.astype(np.float64)[:even[0], :even[1]]
+                if not np.array_equal(np.asarray(r, np.float64)[:even[0], :even[1]], ref) or \
+                        not np.array_equal(np.asarray(wv, np.float64)[:even[0], :even[1]], ref):
+                    return Result(False, True, {"why": "ihaar(inline=True) on a %s view of haar(f) does not give f back" % case["layout"]})
+                if parent is not None:
+                    now = float(parent.astype(np.float64).sum()) - float(wv.astype(np.float64).sum())
+                    if now != outside:
+                        return Result(False, True, {"why": "ihaar(inline=True) on a %s view wrote outside the view" % case["layout"]})
             else:
                 # inline=True asks for the transform to be written into the argument: a read-only array cannot take it, the
                 # call must fail and leave the array as it was (haar, ihaar, daubechies, idaubechies)
